@@ -22,12 +22,17 @@
    Type 3 Tag operation specification; CodeReadPlan is the command sequence of
    Type3Tag.NDEF._read_ndef_data (tt3.py:193-226).
 
-   Block 0 is kept as a record (the 16 attribute bytes are parsed by Trace_T3Tag), data blocks are
-   a flat byte sequence `mem` of NB*BS bytes (BS = 16; 2 in exhaustive runs).
+   Block 0 is kept as a record (the 16 attribute bytes are parsed by Trace_T3Tag with the field
+   layout of the operation specification: Ver, Nbr, Nbw, Nmaxb 16 bit, RFU, WriteF, RWFlag, Ln 24
+   bit, checksum).  The data blocks are mem = [nb, gen, w]: nb blocks of BS bytes (BS = 16; 2 in
+   exhaustive runs); block b is w[b] where w is defined, otherwise the generated content
+   GenBlk(gen, b) -- tags with up to 65535 blocks are described, not enumerated (sim/simt3t.py
+   serves them the same way).
 *)
 EXTENDS Integers, Sequences, SequencesExt, FiniteSets, TLC
 
 CONSTANTS BS,          \* block size in bytes
+          RdMax,       \* blocks one Read Without Encryption response can carry (15)
           Nmaxbs,      \* MC: Nmaxb values
           Extras,      \* MC: physical data blocks beyond Nmaxb
           Nbrs, Nbws,  \* MC: Nbr / Nbw values (announced = physical)
@@ -60,7 +65,12 @@ NoNdef == [k |-> "none", v |-> <<>>]
 NotReadable == [k |-> "notreadable", v |-> <<>>]
 
 \* ------------------------------------------------------------------ tag layer (independent of nfcpy)
-NB(T) == Len(T.mem) \div BS
+GenBlk(g, b) == [j \in 1..BS |-> (g + 31 * b + 7 * j + 13 * (b \div 256)) % 251]
+Blk(M, b) == IF b \in DOMAIN M.w THEN M.w[b] ELSE GenBlk(M.gen, b)
+Flat(M, n) ==                      \* the first n bytes of the data blocks
+    LET bl == [b \in 1..((n + BS - 1) \div BS) |-> Blk(M, b)]
+    IN [x \in 1..n |-> bl[((x - 1) \div BS) + 1][((x - 1) % BS) + 1]]
+NB(T) == T.mem.nb
 NOth(T) == Len(T.oth) \div BS
 ElemOk(T, s, b) == (s = NDEFRW /\ T.attr.rwflag # 0 /\ b <= NB(T)) \/ (s = OTHSC /\ b < NOth(T))
 TagOk(T, P, c) ==
@@ -77,20 +87,21 @@ TagApply(T, c) ==
         LastK(S, b) == MaxS({k \in S : c.bl[k] = b})
     IN [attr |-> IF KA = {} THEN T.attr ELSE c.dat[MaxS(KA)],
         mem  |-> IF B9 = {} THEN T.mem
-                 ELSE [x \in 1..Len(T.mem) |->
-                        LET b == ((x - 1) \div BS) + 1 IN
-                        IF b \in B9 THEN c.dat[LastK(K9, b)][((x - 1) % BS) + 1] ELSE T.mem[x]],
+                 ELSE [T.mem EXCEPT !.w = [b \in B9 |-> c.dat[LastK(K9, b)]] @@ @],
         oth  |-> IF BO = {} THEN T.oth
                  ELSE [x \in 1..Len(T.oth) |->
                         LET b == (x - 1) \div BS IN
                         IF b \in BO THEN c.dat[LastK(KO, b)][((x - 1) % BS) + 1] ELSE T.oth[x]]]
 
 \* ------------------------------------------------------------------ reference reader (T3T operation spec.)
-HasNdef(T) == T.attr.ckok /\ T.attr.ver \div 16 = 1 /\ T.attr.ln <= Len(T.mem)
+\* no NDEF: checksum, major version, Ln beyond the announced data area (or beyond the blocks the
+\* tag really has), no block readable (Nbr = 0)
+AttrOk(T) == T.attr.ckok /\ T.attr.ver \div 16 = 1 /\ T.attr.ln <= T.attr.nmaxb * BS /\ T.attr.nbr > 0
+HasNdef(T) == AttrOk(T) /\ (T.attr.ln + BS - 1) \div BS <= NB(T)
 RefRead(T) ==
     IF ~HasNdef(T) THEN NoNdef
-    ELSE IF T.attr.writef # 0 \/ T.attr.nbr = 0 THEN NotReadable
-    ELSE Ndef(SubSeq(T.mem, 1, T.attr.ln))
+    ELSE IF T.attr.writef # 0 THEN NotReadable
+    ELSE Ndef(Flat(T.mem, T.attr.ln))
 RealCap(T) == Min2(T.attr.nmaxb, NB(T)) * BS
 
 \* ------------------------------------------------------------------ nfcpy reader (tt3.py:158-226)
@@ -99,9 +110,9 @@ Writeable(T) == T.attr.rwflag # 0 /\ T.attr.nbw > 0       \* tt3.py:173
 LastBlk(n) == 1 + (n + BS - 1) \div BS
 \* block lists of the Read Without Encryption commands of a fresh reader
 CodeReadPlan(T) ==
-    IF ~(T.attr.ckok /\ T.attr.ver \div 16 = 1) THEN << <<0>> >>
+    IF ~AttrOk(T) THEN << <<0>> >>
     ELSE LET lb == LastBlk(T.attr.ln)
-             nbr == T.attr.nbr
+             nbr == Min2(T.attr.nbr, RdMax)        \* tt3.py: nbr = min(attributes['nbr'], 15)
              nc == ((lb - 1) + nbr - 1) \div nbr
          IN << <<0>> >> \o [c \in 1..nc |->
                 [j \in 1..Min2(nbr, lb - (1 + (c - 1) * nbr)) |-> (c - 1) * nbr + j]]
@@ -181,7 +192,7 @@ FormatStep(c) ==
     /\ UNCHANGED <<tag0, phys, op, msg>>
 
 \* ------------------------------------------------------------------ exhaustive model (scaled constants)
-OldMem(n) == [x \in 1..n |-> 1 + (x % 2)]
+OldMem(n) == [b \in 1..n |-> [j \in 1..BS |-> 1 + (((b - 1) * BS + j) % 2)]]
 OthMem == [x \in 1..BS |-> 9]
 NewMsg(kind, n) == IF kind = "a" THEN [x \in 1..n |-> 3 + (x % 2)]
                    ELSE [x \in 1..n |-> IF x % 2 = 0 THEN 0 ELSE 1]
@@ -193,7 +204,7 @@ Init ==
             /\ tag = [attr |-> [ver |-> ver, nbr |-> nbr, nbw |-> nbw, nmaxb |-> nmaxb,
                                 rfu |-> <<rfu, rfu, rfu, rfu>>, writef |-> wf, rwflag |-> rw,
                                 ln |-> ln, ckok |-> ck],
-                      mem |-> OldMem((nmaxb + ex) * BS), oth |-> OthMem]
+                      mem |-> [nb |-> nmaxb + ex, gen |-> 0, w |-> OldMem(nmaxb + ex)], oth |-> OthMem]
             /\ phys = [nbr |-> nbr, nbw |-> nbw]
     /\ tag0 = tag
     /\ pc = "idle" /\ op = "none" /\ msg = <<>> /\ ra = 0 /\ i = 0 /\ ncmd = 0 /\ last = NoCmd
@@ -214,11 +225,11 @@ WriteOk == pc # "error"
 CapSound == RepCap(tag0) <= RealCap(tag0)
 RejectEarly == pc \in {"rejected", "refused", "ffalse"} => ncmd = 0 /\ tag = tag0
 CodeReadOk ==        \* the chunked read of nfcpy covers exactly the blocks the reference reader needs
-    HasNdef(tag) /\ tag.attr.nbr > 0 =>
+    HasNdef(tag) =>
         LET plan == CodeReadPlan(tag)
             blocks == FlattenSeq(Tail(plan))
         IN /\ blocks = [k \in 1..(LastBlk(tag.attr.ln) - 1) |-> k]
-           /\ \A c \in 1..Len(plan) : Len(plan[c]) >= 1 /\ Len(plan[c]) <= tag.attr.nbr
+           /\ \A c \in 1..Len(plan) : Len(plan[c]) >= 1 /\ Len(plan[c]) <= Min2(tag.attr.nbr, RdMax)
 \* C02: every reachable state of a write, in particular every PowerCut state
 Atomic == op = "write" =>
             RefRead(tag) \in {RefRead(tag0), Empty, NotReadable, Ndef(msg)}
@@ -230,7 +241,8 @@ MgmtKept == /\ tag.attr.ver = tag0.attr.ver /\ tag.attr.nbr = tag0.attr.nbr /\ t
 Confined ==
     /\ tag.oth = tag0.oth
     /\ op = "write" =>
-         /\ \A x \in (tag0.attr.nmaxb * BS + 1)..Len(tag.mem) : tag.mem[x] = tag0.mem[x]
+         /\ tag.mem.nb = tag0.mem.nb /\ tag.mem.gen = tag0.mem.gen
+         /\ \A b \in DOMAIN tag.mem.w : b > tag0.attr.nmaxb => tag.mem.w[b] = Blk(tag0.mem, b)
          /\ MgmtKept
          /\ InArea(last, WriteArea)
     /\ op = "format" => InArea(last, 0..NB(tag0))
@@ -246,7 +258,7 @@ W_CutNew == ~(pc = "cut" /\ Len(msg) > 0 /\ RefRead(tag) = Ndef(msg) /\ RefRead(
 W_Rejected == ~(pc = "rejected")
 W_Refused == ~(pc = "refused")
 W_Batches == ~(pc = "w_data" /\ Len(last.bl) >= 2 /\ i < LastBlk(Len(msg)))
-W_Full == ~(pc = "done" /\ Len(msg) = RepCap(tag0) /\ Len(msg) >= 2 * BS /\ Len(tag.mem) > Len(msg))
+W_Full == ~(pc = "done" /\ Len(msg) = RepCap(tag0) /\ Len(msg) >= 2 * BS /\ NB(tag) * BS > Len(msg))
 W_Recover == ~(pc = "done" /\ tag0.attr.writef # 0 /\ Len(msg) > 0)
 W_EmptyMsg == ~(pc = "done" /\ Len(msg) = 0 /\ tag0.attr.ln > 0)
 W_FormatWipe == ~(pc = "fdone" /\ ra.wipe >= 0 /\ ncmd > 3 /\ tag.attr.nmaxb > tag0.attr.nmaxb)
